@@ -71,4 +71,23 @@ theorem rangeItems_sound (a b : Nat) (hab : a < b) :
     simp only [rangeItems, this, ↓reduceIte]
     simp [List.range_succ, Nat.add_comm]
 
+/-! ## helpers for the non-vacuity examples of Props/C07 -/
+
+/-- the names of the tags of a run (`<exception>` if it raised) -/
+def names (r : Except Py.Exc Output) : List String :=
+  match r with
+  | .ok out => out.tags.map (·.name)
+  | .error _ => ["<exception>"]
+
+/-- the extras of the tags of a run -/
+def extrasOf (r : Except Py.Exc Output) : List (List Extra) :=
+  match r with
+  | .ok out => out.tags.map (·.extras)
+  | .error _ => []
+
+/-- a translated, non-obsolete plural message with `k` forms -/
+def plMsg (k : Nat) : MsgFacts := ⟨false, true, true, k, "(m)".toList⟩
+/-- the registry's declaration for English -/
+def en : List Char := "nplurals=2; plural=n != 1;".toList
+
 end I18n.CheckPlurals
